@@ -197,7 +197,7 @@ theorem one_reply_lRangeH (args : List Bytes) : OneReply (Handler2.lRangeH args)
   · exact oneValue_bulkList _
   · exact oneValue_arr0
 
-/-- LSET: two API calls in one closure; whichever panics, one error; otherwise one token -/
+/-- LSET: one API call in the closure; a panic gives one error; otherwise one token -/
 theorem one_reply_lSetH (args : List Bytes) : OneReply (Handler2.lSetH args) := by
   unfold Handler2.lSetH
   split
@@ -208,7 +208,7 @@ theorem one_reply_lSetH (args : List Bytes) : OneReply (Handler2.lSetH args) := 
       intro s o
       split
       · exact good_done_scalar _ _ rfl
-      · apply good_call_all; intro s o; exact good_done_scalar _ _ rfl
+      · exact good_done_scalar _ _ rfl
   · exact oneReply_errReply
 
 theorem one_reply_rotateH (left : Bool) (args : List Bytes) : OneReply (Handler2.rotateH left args) := by
@@ -411,18 +411,15 @@ theorem one_reply_sOpH (op : MState → Int → List Bytes → Api.R) (args : Li
     · exact oneValue_arr0
   · exact oneReply_errReply
 
-/-- S*STORE — for ANY operation `op`: two API calls in one closure -/
+/-- S*STORE — for ANY operation `op`: one API call in the closure -/
 theorem one_reply_sStoreH (op : MState → Int → List Bytes → Api.R) (all : Bool) (args : List Bytes) :
     OneReply (Handler2.sStoreH op all args) := by
   unfold Handler2.sStoreH
   split
   · intro s now ch
-    dsimp only
     apply good_call_all
     intro s o
-    split
-    · exact good_done_scalar _ _ rfl
-    · apply good_call_all; intro s o; exact good_done_scalar _ _ rfl
+    exact good_done_scalar _ _ rfl
   · exact oneReply_errReply
 
 theorem one_reply_sIsMemberH (args : List Bytes) : OneReply (Handler2.sIsMemberH args) := by
